@@ -65,6 +65,34 @@ Proof.
   - ring.
 Qed.
 
+Lemma qsumr_correct : forall (A : Type) (f : A -> Q) l, qsumr f l == qsumf f l.
+Proof.
+  intros A f. induction l as [|x l IH]; [reflexivity|]. rewrite qsumf_cons. cbn [qsumr fold_right]. fold (qsumr f l).
+  rewrite Qred_correct, IH. reflexivity.
+Qed.
+(** the cheap dyadic decoder denotes the same rational as [f64_val] *)
+Lemma half_double : forall y : Z, (2 * y / 2 = y)%Z.
+Proof. intro y. rewrite Z.mul_comm. apply Z.div_mul. lia. Qed.
+Lemma dyadic_correct : forall k z, dyadic z k == z # Pos.pow 2 (Pos.of_nat k) \/ k = O.
+Proof.
+  induction k as [|k IH]; intro z; [right; reflexivity|]. left. cbn [dyadic]. destruct (Z.even z) eqn:Ev; [|reflexivity].
+  apply Z.even_spec in Ev. destruct Ev as [y ->]. rewrite Z.div2_div, half_double. destruct k as [|k'].
+  - cbn [dyadic]. unfold Qeq. cbn [Qnum Qden]. change (Z.pos (2 ^ Pos.of_nat 1)) with 2%Z. lia.
+  - destruct (IH y) as [E|E]; [|discriminate]. rewrite E. unfold Qeq. cbn [Qnum Qden].
+    replace (Pos.of_nat (S (S k'))) with (Pos.succ (Pos.of_nat (S k'))) by (rewrite <- Nat2Pos.inj_succ by discriminate; reflexivity).
+    rewrite Pos.pow_succ_r. rewrite Pos2Z.inj_mul. ring.
+Qed.
+Lemma two1074_eq : Pos.pow 2 (Pos.of_nat k1074) = two1074.
+Proof. vm_compute. reflexivity. Qed.
+Lemma f64_q_correct : forall b q, f64_q b = Some q -> exists q', f64_val b = Some q' /\ q == q'.
+Proof.
+  intros b q H. unfold f64_q, f64_val in *. pose proof two1074_eq as T. remember k1074 as k eqn:Hk.
+  assert (K : k <> O) by (rewrite Hk; discriminate). clear Hk.
+  destruct (f64_scaled b) as [z|]; [|discriminate]. cbn [option_map] in *. injection H as H.
+  exists (z # two1074). split; [reflexivity|]. destruct (dyadic_correct k z) as [E|E]; [|contradiction].
+  rewrite <- H, <- T. exact E.
+Qed.
+
 (** * the invariant *)
 Definition dist_on (ns : list Z) (s : list (Z * Q)) : Prop :=
   map fst s = ns /\ (forall v, 0 <= qlookup s v) /\ qsumf (qlookup s) ns == 1.
@@ -88,13 +116,13 @@ Lemma inject_nonneg : forall z, (0 <= z)%Z -> 0 <= inject_Z z.
 Proof. intros z H. unfold Qle, inject_Z. cbn. lia. Qed.
 
 Definition pr_dsum (g : graph) (s : list (Z * Q)) : Q :=
-  qsumf (fun i => if (outdeg g i =? 0)%Z then qlookup s i else 0) (nodes g).
+  qsumr (fun i => if (outdeg g i =? 0)%Z then qlookup s i else 0) (nodes g).
 Definition pr_base (g : graph) (d : Q) (s : list (Z * Q)) : Q :=
   (1 - d) / inject_Z (Z.of_nat (length (nodes g))) + d * pr_dsum g s / inject_Z (Z.of_nat (length (nodes g))).
 Definition pr_contrib (g : graph) (d : Q) (s : list (Z * Q)) (e : edge) : Q :=
   d * qlookup s (esrc e) / inject_Z (outdeg g (esrc e)).
 Definition pr_new (g : graph) (d : Q) (s : list (Z * Q)) (j : Z) : Q :=
-  Qred (pr_base g d s + qsumf (fun e => if (edst e =? j)%Z then pr_contrib g d s e else 0) (edges g)).
+  Qred (pr_base g d s + qsumr (fun e => if (edst e =? j)%Z then pr_contrib g d s e else 0) (edges g)).
 Lemma pr_step_eq : forall g d s, pr_step g d s = map (fun j => (j, pr_new g d s j)) (nodes g).
 Proof. reflexivity. Qed.
 
@@ -122,7 +150,7 @@ Section Step.
     intros s [Hk [Hpos Hsum]]. rewrite pr_step_eq. fold ns.
     set (dsum := pr_dsum g s). set (base := pr_base g d s). set (c := pr_contrib g d s). set (F := pr_new g d s).
     assert (Dn : 0 <= dsum).
-    { apply qsumf_nonneg. intros i _. destruct (outdeg g i =? 0)%Z; [apply Hpos|apply Qle_refl]. }
+    { unfold dsum, pr_dsum. rewrite qsumr_correct. apply qsumf_nonneg. intros i _. destruct (outdeg g i =? 0)%Z; [apply Hpos|apply Qle_refl]. }
     assert (Bn : 0 <= base).
     { unfold base, pr_base. fold ns n dsum. destruct Hd as [D0 D1]. apply Qplus_nonneg.
       - apply Qdiv_nonneg; [|apply n_nonneg]. unfold Qminus. rewrite <- (Qplus_opp_r d). apply Qplus_le_compat; [assumption|apply Qle_refl].
@@ -130,7 +158,7 @@ Section Step.
     assert (Cn : forall e, 0 <= c e).
     { intro e. unfold c, pr_contrib. destruct Hd as [D0 _]. apply Qdiv_nonneg; [|apply outdeg_nonneg]. apply Qmult_le_0_compat; [assumption|apply Hpos]. }
     assert (FF : forall j, F j == base + qsumf (fun e => if (edst e =? j)%Z then c e else 0) E).
-    { intro j. unfold F, pr_new. apply Qred_correct. }
+    { intro j. unfold F, pr_new. rewrite Qred_correct, qsumr_correct. reflexivity. }
     split; [|split].
     - rewrite map_map. cbn [fst]. apply map_id.
     - intro v. destruct (in_dec Z.eq_dec v ns) as [Hv|Hv].
@@ -159,7 +187,7 @@ Section Step.
       rewrite X3. clear X3.
       assert (X4 : qsumf (fun v => if (outdeg g v =? 0)%Z then 0 else d * qlookup s v) ns
                    == d * (qsumf (qlookup s) ns - dsum)).
-      { unfold dsum, pr_dsum. fold ns.
+      { unfold dsum, pr_dsum. rewrite qsumr_correct. fold ns.
         setoid_replace (d * (qsumf (qlookup s) ns - qsumf (fun i => if (outdeg g i =? 0)%Z then qlookup s i else 0) ns))
           with (qsumf (fun v => d * (qlookup s v + - (1) * (if (outdeg g v =? 0)%Z then qlookup s v else 0))) ns).
         - apply qsumf_ext. intros v _. destruct (outdeg g v =? 0)%Z; ring.
